@@ -110,6 +110,11 @@ pub enum Mode {
 
 #[derive(Default)]
 pub struct SrcStats {
+    /// microseconds spent building (not querying) sources, per kind
+    pub us_build_fs: u64,
+    pub us_build_emb: u64,
+    pub us_build_zip: u64,
+    pub us_build_tar: u64,
     pub fs: u64,
     pub embedded: u64,
     pub zip_mem: u64,
@@ -129,15 +134,19 @@ fn mach<E: std::fmt::Display>(what: &str) -> impl Fn(E) -> String + '_ {
 /// file-backed archives (used by the two-reader schedules).  Err = machinery failure.
 pub fn for_each_source(t: &Tree, sc: &Scratch, mode: Mode, st: &mut SrcStats, f: &mut dyn FnMut(&dyn Source, &Variant, Option<&(dyn Source + Sync)>)) -> Result<(), String> {
     let root = sc.base.join("t");
+    let t0 = std::time::Instant::now();
     mk::write_tree(&root, t, false).map_err(mach("write tree"))?;
 
     // (1) the directory on disk
     let fs = FileSystem::new(&root).map_err(mach("FileSystem::new"))?;
     st.fs += 1;
+    st.us_build_fs += t0.elapsed().as_micros() as u64;
     f(&fs, &Variant::plain("fs", "disk"), None);
 
     // (4) embedded, through the real expansion code
+    let t0 = std::time::Instant::now();
     let store = mk::embed_expand(&root)?;
+    st.us_build_emb += t0.elapsed().as_micros() as u64;
     st.embedded_disorder = mk::embedded_disorder(&store);
     st.embedded += 1;
     mk::with_embedded(&store, |emb| f(emb, &Variant::plain("embedded", "tables"), None));
@@ -155,9 +164,12 @@ pub fn for_each_source(t: &Tree, sc: &Scratch, mode: Mode, st: &mut SrcStats, f:
                 let ml = mk::members(t, dirs, prefix);
                 let ords = if mode == Mode::Full { mk::orders(t, &ml) } else { reduced_orders(t, &ml) };
                 for (label, order) in ords {
+                    let t0 = std::time::Instant::now();
                     let bytes = mk::zip_variant(&mut master, t, &order, prefix).map_err(mach("zip variant"))?;
                     let v = Variant { kind: "zip", dirs, prefix, deflate, order: label, backing: "mem", writer: "raw-copy" };
-                    match Zip::from_bytes(&bytes[..]) {
+                    let opened = Zip::from_bytes(&bytes[..]);
+                    st.us_build_zip += t0.elapsed().as_micros() as u64;
+                    match opened {
                         Ok(z) => {
                             st.zip_mem += 1;
                             f(&z, &v, None)
@@ -203,9 +215,12 @@ pub fn for_each_source(t: &Tree, sc: &Scratch, mode: Mode, st: &mut SrcStats, f:
             let (blobs, longs) = mk::tar_blobs(t, &ml, prefix);
             let ords = if mode == Mode::Full { mk::orders(t, &ml) } else { reduced_orders(t, &ml) };
             for (label, order) in ords {
+                let t0 = std::time::Instant::now();
                 let bytes = mk::tar_concat(&blobs, &order);
                 let v = Variant { kind: "tar", dirs, prefix, deflate: false, order: label, backing: "mem", writer: "manual" };
-                match Tar::from_bytes(&bytes[..]) {
+                let opened = Tar::from_bytes(&bytes[..]);
+                st.us_build_tar += t0.elapsed().as_micros() as u64;
+                match opened {
                     Ok(z) => {
                         st.tar_mem += 1;
                         st.tar_longname_members += longs;
